@@ -183,3 +183,8 @@ impl BackoffStorage {
             HeartbeatIndex((self.heartbeat_index.0 + 1) % self.backoffs_by_heartbeat.len());
     }
 }
+
+#[cfg(kani)]
+pub(crate) mod verif {
+    include!(concat!(env!("LIBP2P_VERIF"), "/hooks/gossipsub_backoff.rs"));
+}
